@@ -29,7 +29,7 @@ def run_property(rep, prop, tier, rng, judge, rule, nspecs=None, opts=None, tag=
     kinds, outcomes, st = {}, {}, {}
     nrel = nprog = ntie = 0
     first_tie = None
-    hyp = {h: 0 for h in ("supported", "plansok", "sizeexact", "finite", "outputok", "elemssure", "acyclic", "paramsok", "labelstyped", "variantsdistinct", "implfits")}
+    hyp = {h: 0 for h in ("supported", "plansok", "sizeexact", "finite", "outputok", "elemssure", "acyclic", "paramsok", "labelstyped", "variantsdistinct", "implfits", "typesok")}
     uncovered, not_compiled, samples, heavy_skipped = [], [], [], []
     for ci, res in enumerate(t2.campaign_chunks(tier, rep.seed, nspecs=nspecs, opts=opts, tag=tag)):
         for c in res["cases"]:
@@ -67,7 +67,7 @@ def run_property(rep, prop, tier, rng, judge, rule, nspecs=None, opts=None, tag=
             # whose decoders were exercised: the plan-level ones must hold for everything rustc compiled
             for h in hyp:
                 hyp[h] += s.get("flags", {}).get(h) == "true"
-            if s["status"] == "ok" and not s.get("oos") and not all(s.get("flags", {}).get(h) == "true" for h in ("supported", "plansok", "sizeexact", "finite", "outputok", "elemssure", "paramsok", "labelstyped", "variantsdistinct", "implfits")):
+            if s["status"] == "ok" and not s.get("oos") and not all(s.get("flags", {}).get(h) == "true" for h in ("supported", "plansok", "sizeexact", "finite", "outputok", "elemssure", "paramsok", "labelstyped", "variantsdistinct", "implfits", "typesok")):
                 uncovered.append(s)
             if s["status"] != "ok":
                 not_compiled.append({"chunk": ci, "k": k, "status": s["status"]})
